@@ -21,6 +21,11 @@ PROPS = {
         title='Typed opcodes only ever receive operands of the kind they require',
         verus=['core'], kani=[],
         level='proof',
+        technique='Verus contracts on extracted real functions: per-arm can_emit guard soundness and per-arm process_stack_ops effect against a reference pickle machine',
+        claim='Unbounded proof (all stacks, all depths) that each can_emit arm implies the reference kind precondition and that '
+              'each process_stack_ops arm keeps the simulated kinds compatible with the reference machine; one named obligation per arm.',
+        note='Trusted: Verus/z3, the opaque cell model (variant tag immutable; lint-checked), assumed std specs listed in evidence.trusted_base, '
+             'extraction rules R1-R12. Composition over the generation loop is by the driver unit (until it lands: by inspection).',
         assumptions=[
             'C03 is decided per function: can_emit(op) => reference kind precondition (per arm) and '
             'process_stack_ops keeps the simulated kinds compatible with the reference machine (per arm); '
@@ -31,7 +36,31 @@ PROPS = {
         title='The simulated stack and memo mirror the reference machine after every opcode',
         verus=['core'], kani=[],
         level='proof',
+        technique='Verus contracts: process_stack_ops arm-by-arm simulation relation against a reference pickle machine (inductive step of the invariant)',
+        claim='Unbounded proof of the inductive step: from any simulated state related to a reference state, every process_stack_ops arm '
+              'produces a state related to ref_step (same depth, MARK positions, compatible kinds, same memo index set).',
+        note='Trusted: Verus/z3, cell model, assumed std specs in evidence.trusted_base, extraction rules; the emitters pass exactly the '
+             'emitted argument bytes (arg_link precondition; Kani side).',
         assumptions=[
             'process_stack_ops is called with exactly the bytes that were appended (emitters; arg_link precondition)',
         ]),
+}
+
+NOT_APPLICABLE = {
+    'C01': 'check under construction in this session (chain U2-U5); will be claimed once the driver unit lands',
+    'C02': 'check under construction in this session',
+    'C04': 'check under construction in this session',
+    'C05': 'check under construction in this session',
+    'C06': 'check under construction in this session',
+    'C07': 'check under construction in this session',
+    'C08': 'check under construction in this session',
+    'C09': 'check under construction in this session',
+    'C10': 'check under construction in this session',
+    'C11': 'check under construction in this session',
+    'C12': 'check under construction in this session',
+    'C13': 'front ends (main.rs clap/rayon/filesystem, bash wrapper, PyO3/Python) have no function boundary a contract can be put on and no deductive verifier here accepts them (DESIGN.md section 7)',
+    'C14': 'heap reachability through Rc<RefCell<..>> cycles: no contract within reach of Verus (cell model has no heap) or Kani (recursive drop glue does not terminate in CBMC) can express or decide it (DESIGN.md section 7)',
+    'C15': 'check under construction in this session',
+    'C16': 'check under construction in this session',
+    'C18': 'check under construction in this session',
 }
